@@ -7,6 +7,7 @@ RULE = ("the real binary with --num-threads 1 vs {2,4,16,64} on file sets mixing
         "a lock span, two spans overlap, a file's lint diagnostics use more than one span, or the summary differs from the sum of all "
         "additions; stdout of the multi-threaded run is parsed and compared per file with the sequential run; "
         "directory arguments of 24-40 many-warning files interleaved with entries that cannot be read or opened (directories and dangling symbolic links named *.lua), totals compared with the expected sums and across thread counts; "
+        "a 1.2 MiB source among small ones (totals = sums over single-file runs at every thread count); "
         "several hundred files in nested directories under a low RLIMIT_NOFILE (1 vs 2/4/16 threads); "
         "non-trivial = a trace with >= 2 workers and >= 2 lock spans")
 
@@ -205,6 +206,47 @@ def body(ctx):
                     evs = parse_trace(tp)
                     panics = err.count("The application panicked")
                     lines.append(f"C18.trace\t({' '.join(evs)})\t({rc} {panics} {'true' if aw else 'false'})")
+        # a very large source (1.2 MiB of call statements, seconds of linting) among small ones, last in glob order: its diagnostics, its share
+        # of the totals and the exit status are there at every thread count, and each file's outcome is the one of a run on it alone
+        for si in range(1 if ctx.tier == "quick" else 3):
+            d = os.path.join(ctx.workdir, f"largefile{si}")
+            inner = os.path.join(d, "src")
+            os.makedirs(inner, exist_ok=True)
+            big_code = "\n".join('print("%s", %d)' % ("y" * 300, i) for i in range(4000))     # 1.2 MiB, a few seconds of linting
+            kinds = {
+                "a_clean.lua": "local a = 1\nprint(a)\n",
+                "b_warning.lua": "local unused_b = 1\n",
+                "c_unparsable.lua": "local = 1\n",
+                "z_large.lua": f"{big_code}\nprint(undefined_in_large)\nlocal unused_in_large = 1\n",
+            }
+            if si % 2 == 1:
+                kinds = {"z_large.lua": kinds["z_large.lua"]}
+            for name, src in kinds.items():
+                with open(os.path.join(inner, name), "w") as fh:
+                    fh.write(src)
+            cli.write_config(d, name="cfg.toml")
+            want = {"errors": 0, "warnings": 0, "parse_errors": 0}
+            for name in kinds:
+                rc0, out0, err0 = cli.run_selene(["--config", "cfg.toml", "--num-threads", "1", "--display-style", "json2", os.path.join("src", name)], d, timeout=300)
+                _, s0, _ = cli.parse_json_lines(out0)
+                for k in want:
+                    want[k] += (s0 or {}).get(k, 0)
+                if name == "z_large.lua":
+                    ctx.evaluations += 1
+                    if s0 is None or (s0.get("errors"), s0.get("warnings"), s0.get("parse_errors")) != (1, 1, 0) or rc0 != 1:
+                        ctx.violation(f"implementation violates the specification: a run over the 1.2 MiB source alone reports summary {s0} and exit status {rc0}; the file has one undefined name (error) and one unused local (warning)",
+                                      f"directory: {d}\nfile: src/z_large.lua (4000 long call statements, then `print(undefined_in_large)` and `local unused_in_large = 1`)\nstdout (tail):\n{out0[-400:]}")
+            for threads in (1, 2, 4, 16):
+                for rep in range(2):
+                    rc, out, err = cli.run_selene(["--config", "cfg.toml", "--num-threads", str(threads), "--display-style", "json2", "src"], d, timeout=300)
+                    dn, sn, badn = cli.parse_json_lines(out)
+                    ctx.evaluations += 1
+                    got = {k: (sn or {}).get(k) for k in want}
+                    rc_want = 1 if (want["errors"] or want["warnings"] or want["parse_errors"]) else 0
+                    if badn or got != want or rc != rc_want:
+                        ctx.violation(f"implementation violates the specification: --num-threads {threads} over a directory that holds a 1.2 MiB source: summary/exit {got}/{rc}, the sums over single-file runs are {want}/{rc_want}",
+                                      f"directory: {d}\nargument: src ({', '.join(kinds)}; z_large.lua = 4000 long call statements, 1.2 MiB, then an undefined name and an unused local)\nthreads: {threads}\nstdout (tail):\n{out[-500:]}")
+                        break
         # many files under a low limit on open file descriptors: a sequential run holds one file open at a time, and so
         # does every worker — the number of descriptors in use must not grow with the number of files waiting to be linted
         for si in range(1 if ctx.tier == "quick" else 4):
